@@ -107,6 +107,23 @@ let () =
                    Http.s_body = bytes_of_hex body } in
          hex_of_bytes (Http.serialize_response r))
     | _ -> "BADARGS");
+  register "resp_ser_ck" (function
+    | [code; items; body] ->
+      (match Http.status_of_code (n_of_int (int_of_string code)) with
+       | None -> "nocode"
+       | Some st ->
+         let hs = if items = "-" then [] else Stdlib.List.map (fun it ->
+             match Stdlib.String.split_on_char ':' it with
+             | ["h"; k; v] -> (Http.hname_of (bytes_of_hex k), bytes_of_hex v)
+             | ["c"; n; v; sec] ->
+               Http.set_cookie_header { Http.sc_name = bytes_of_hex n; Http.sc_value = bytes_of_hex v; Http.sc_expires = None;
+                                        Http.sc_max_age = None; Http.sc_domain = None; Http.sc_path = None;
+                                        Http.sc_secure = (sec = "1"); Http.sc_http_only = false; Http.sc_same_site = None }
+             | _ -> failwith "item") (Stdlib.String.split_on_char ',' items) in
+         let r = { Http.s_version = bytes_of_hex "485454502f312e31"; Http.s_status = st; Http.s_headers = hs;
+                   Http.s_body = bytes_of_hex body } in
+         hex_of_bytes (Http.serialize_response r))
+    | _ -> "BADARGS");
   register "setcookie" (function
     | [name; value; expires; maxage; domain; path; secure; httponly; samesite] ->
       let ob s = if s = "none" then None else Some (bytes_of_hex s) in
